@@ -215,4 +215,18 @@ def build(tier, seed):
         if "Clone" in attrs and cls == "repeated-derive":
             d.derives = ["Debug"]
             d.tags.append("needs=Debug+Clone")
+    # built-in validators mixed with `with`/`error` (normally refused): if accepted, every written rule must be enforced
+    for fam, inner, bound_txt, kind, den, cond in (("int", inner_int("i32"), "100", "less_or_equal", 100, "*x != 13"), ("float", inner_float("f64"), "100.0", "less_or_equal", None, "*x != 13.0"),
+                                                   ("string", inner_string(), "4", "len_char_max", 4, "x.len() != 2")):
+        for custom_first in (False, True):
+            d = new(inner, "layout:builtin-mixed-with-custom:%s:%s" % (fam, "custom-first" if custom_first else "builtin-first"))
+            add_custom_validation(d, cond)
+            E = d.custom[1]
+            dden = float_denote("f64", Fraction(100)) if fam == "float" else den
+            d.vals = [Vld(kind, bound_txt, dden)]
+            if custom_first:
+                d.tags.append("custom_first")
+                d.attr_override = "validate(with = cv_impl, error = %s, %s = %s), derive(Debug)" % (E, kind, bound_txt)
+            else:
+                d.attr_override = "validate(%s = %s, with = cv_impl, error = %s), derive(Debug)" % (kind, bound_txt, E)
     return b.decls
